@@ -914,13 +914,109 @@ def cases(tier, seed):
         sims = {k: 4 for k in SIM_CFGS}
         sims["J2lin-PE-QUAD4"] = sims["J2voceAF-PS-mixed"] = 5
     out.sort(key=lambda c: -c["depth"])  # the expensive cases first (load balance)
+    # MaterialPoint.Run (stress-controlled components are solved by an inner Newton on the strain): purity of the integration
+    # inside that loop.  behaviours x control modes x strain programs
+    mp_cfgs = [dict(_DEFAULT_MP, **d) for d in (
+        {}, {"kinematic": "Prager"}, {"kinematic": "ArmstrongFrederick"}, {"hardening": "Voce"}, {"rate": "Norton"},
+        {"kinematic": "ArmstrongFrederick", "hardening": "Voce"}, {"branches": "one", "yield": "none", "hardening": "none"})]
+    for c in mp_cfgs:
+        for mode in ("uniaxial_stress", "shear_plus_axial", "plane_stress_like"):
+            for prog in ("load_unload_reload", "non_proportional"):
+                out.append({"kind": "mp", **c, "mode": mode, "program": prog})
     for name, depth in sims.items():
         for seq in sim_sequences(depth):
             out.append({"kind": "sim", "sim": name, "seq": seq})
     return out
 
 
+_DEFAULT_MP = {"yield": "VonMises", "hardening": "Linear", "kinematic": "none", "rate": "none", "branches": "none", "dim": "3D"}
+
+
+def run_materialpoint(case):
+    """Drives MaterialPoint.Run with a spy on Behavior.Integrate.  Invariants: (purity) inside one step every call of Integrate is
+    handed the SAME committed state (the one recorded at the end of the previous step), bytes unchanged; (reproducibility) the recorded
+    stress/state of step k equals Integrate(recorded strain k, recorded state k-1)."""
+    from EasyFEA.FEM._linalg import FeArray
+    from EasyFEA.Models.InElastic._materialpoint import MaterialPoint
+
+    cfg = {k: case[k] for k in FACTORS}
+    beh = build_behavior(cfg)
+    calls = []
+    real = beh.Integrate
+
+    def spy(eps, zOld, dt, *a, **k):
+        calls.append((np.array(eps, dtype=float).ravel().copy(), None if zOld is None else np.array(zOld, dtype=float).copy()))
+        return real(eps, zOld, dt, *a, **k)
+
+    beh.Integrate = spy
+    n = 12
+    up = np.linspace(0.0, 3.0 * EPS_Y, n)
+    if case["program"] == "load_unload_reload":
+        xx = np.concatenate([up, np.linspace(3.0 * EPS_Y, -2.0 * EPS_Y, n)[1:], np.linspace(-2.0 * EPS_Y, 2.5 * EPS_Y, n)[1:]])
+        sh = 0.6 * xx[::-1].copy()
+    else:
+        t = np.linspace(0.0, 2.0 * np.pi, 3 * n - 2)
+        xx = 3.0 * EPS_Y * np.sin(t) + 1e-3 * EPS_Y * np.arange(t.size)
+        sh = 2.5 * EPS_Y * (1.0 - np.cos(t)) + 2e-3 * EPS_Y * np.arange(t.size)
+    if case["mode"] == "uniaxial_stress":
+        strain = {"xx": xx}
+    elif case["mode"] == "shear_plus_axial":
+        strain = {"xx": xx, "xy": sh}
+    else:
+        strain = {"xx": xx, "yy": 0.3 * xx, "xy": sh}
+    dt = 0.5 if case["rate"] != "none" or case["branches"] != "none" else 0.0
+    key = {k: case[k] for k in ("yield", "hardening", "kinematic", "rate", "branches", "mode", "program")}
+    try:
+        out = MaterialPoint(beh).Run(strain=strain, dt=dt)
+    except AssertionError as err:
+        if "did not converge" in str(err):
+            return {"violations": [], "fingerprint": fp("mp-nonconv", case), "nontrivial": False, "skipped": "local iteration reported non-convergence",
+                    "transitions": len(calls)}
+        raise
+    v = []
+    E, S, Zs = out["strain"], out["stress"], out["state"]
+    driven = sorted({"xx": 0, "yy": 1, "xy": 5}[k] for k in strain)
+    # group the spied calls by step: the driven components identify the step
+    step_of = []
+    k = 0
+    for eps, z in calls:
+        while k < len(E) - 1 and not np.allclose(eps[driven], E[k][driven], rtol=0, atol=1e-300):
+            k += 1
+        step_of.append(k)
+    ncalls = len(calls)
+    for idx, ((eps, z), st) in enumerate(zip(calls, step_of)):
+        want = None if st == 0 else Zs[st - 1]
+        if want is None:
+            if z is not None and np.abs(z).max() > 0:
+                v.append(viol("mp_purity", f"step 0, call {idx}: Integrate was handed a non-virgin state", **key))
+                break
+        else:
+            if z is None or np.abs(np.asarray(z).ravel() - want).max() > 0:
+                v.append(viol("mp_purity", f"step {st}: Integrate (call {idx} of {ncalls}) was handed a state that is not the one committed at the end of step {st - 1} "
+                                           f"(max difference {0 if z is None else np.abs(np.asarray(z).ravel() - want).max():.3e}): the history advanced inside the stress-control iterations",
+                              **key))
+                break
+    # reproducibility from the recorded committed states
+    zprev = None
+    for st in range(len(E)):
+        sig, _, znew, ok = real(FeArray.asfearray(E[st][None, None]), zprev, dt)
+        if np.abs(np.asarray(sig)[0, 0] - S[st]).max() > 1e-9 * SIGMA_Y or np.abs(np.asarray(znew)[0, 0] - Zs[st]).max() > 1e-9 * max(EPS_Y, 1e-300) * 10:
+            v.append(viol("mp_reproducible", f"step {st}: integrating the recorded strain from the recorded previous state does not give the recorded stress/state "
+                                             f"(stress diff {np.abs(np.asarray(sig)[0, 0] - S[st]).max():.3e})", **key))
+            break
+        zprev = FeArray.asfearray(Zs[st][None, None]) if Zs[st].size else znew
+    plastic = bool(np.abs(Zs).max() > 0) if Zs.size else False
+    return {"violations": v, "fingerprint": fp(case["mode"], case["program"], key, S), "nontrivial": plastic or case["yield"] == "none",
+            "transitions": ncalls, "states": len(E)}
+
+
 def run_case(case):
+    if case["kind"] == "mp":
+        import warnings
+
+        with warnings.catch_warnings(), np.errstate(all="ignore"):
+            warnings.simplefilter("ignore", RuntimeWarning)
+            return run_materialpoint(case)
     import warnings
 
     with warnings.catch_warnings(), np.errstate(all="ignore"):
